@@ -55,11 +55,14 @@ def explore(chk):
     for job in jobs:
         if job[0] == "pct":
             _, z, d, hor, i, j = job
-            try:
-                r = z.as_percentage_of(video_width=d) if hor else z.as_percentage_of(video_height=d)
-                I = ("ok", geo.obs_size(r))
-            except Exception as e:
-                I = ("err", err_name(e))
+            def calc_pct(z=z, d=d, hor=hor):
+                try:
+                    r = z.as_percentage_of(video_width=d) if hor else z.as_percentage_of(video_height=d)
+                    return ("ok", geo.obs_size(r))
+                except Exception as e:
+                    return ("err", err_name(e))
+            I = calc_pct()
+            chk.remember(("Size.as_percentage_of", repr(z), d, hor), calc_pct, I, every=3)
             case = {"op": "Size.as_percentage_of", "size": repr(z), "dim": d, "horizontal": hor, "impl": str(I)}
             chk.case(key=("pct", geo.enc_size(z), d, hor), nontrivial=z.unit.value != "%",
                      sample=case if chk.count_get("pct") in (40, 300) else None)
@@ -89,11 +92,14 @@ def explore(chk):
             _, l, w, h, rel, fit, i = job
             bw = BaseWriter(relativize=rel, video_width=w, video_height=h, fit_to_screen=fit)
             before = geo.obs_layout(l)
-            try:
-                r = bw._relativize_and_fit_to_screen(l)
-                I = ("ok", geo.obs_layout(r))
-            except Exception as e:
-                I = ("err", err_name(e))
+            def calc_relfit(l=l, w=w, h=h, rel=rel, fit=fit):
+                try:
+                    r = BaseWriter(relativize=rel, video_width=w, video_height=h, fit_to_screen=fit)._relativize_and_fit_to_screen(l)
+                    return ("ok", geo.obs_layout(r))
+                except Exception as e:
+                    return ("err", err_name(e))
+            I = calc_relfit()
+            chk.remember(("_relativize_and_fit_to_screen", repr(l), w, h, rel, fit), calc_relfit, I, every=5)
             case = {"op": "_relativize_and_fit_to_screen", "layout": repr(l), "layout_enc": geo.enc_layout(l), "w": w, "h": h, "relativize": rel, "fit": fit, "impl": str(I)}
             absolute = l is not None and not l.is_relative()
             chk.case(key=("relfit", geo.enc_layout(l), w, h, rel, fit), nontrivial=absolute or (l is not None and l.origin is not None),
@@ -171,6 +177,7 @@ def writer_level(chk):
     except ImportError:
         return
     c13_writers.run(chk)
+    chk.recheck("geometry conversion")
 
 
 def replay(path):
